@@ -1,3 +1,4 @@
+import Cctp.Lemmas.Batch
 import Cctp.Lemmas.NoPanic
 import Cctp.Props.C03
 import Cctp.Props.C11
@@ -277,5 +278,14 @@ theorem no_panic_query (ext : Ext) (st : Store) (nilReq : Bool) (q : Query) (hr 
 /-! non-vacuity: a state with the four roles set -/
 example : RolesSet [(Key.attesterManager, .role [2]), (Key.owner, .role [1]), (Key.pauser, .role [3]), (Key.tokenController, .role [4])] :=
   ⟨by decide, by decide, by decide, by decide⟩
+
+
+/-- the role slots stay set over any list of multi-message transactions, so `no_panic_tx` applies to every message
+    of every transaction in every state a chain can reach (inside a transaction too: the branch a message runs on is
+    `runState` of the messages before it). -/
+theorem roles_txs (ext : Ext) (cfg : Cfg) (txs : List Txn) (w : World) (hs : w.settle = w) (hg : Good ext w.store)
+    (hr : RolesSet w.store) : RolesSet (runTxs ext cfg w txs).1.store := by
+  rw [runTxs_flatten ext cfg txs w hs]
+  exact roles_run ext cfg _ w hg hr
 
 end Cctp.C20
